@@ -88,6 +88,10 @@ func fooKey(form int) string { return gen.MigPkgPath + "/" + gen.MigTypeName(gen
 // buildVersion builds the registry set of a code version with its chained
 // renames registered in the order given by perm.
 func buildVersion(v, perm int) *migProfile {
+	// perm >= numPerms: the same permutation, with a (read-only) GetTypeKey
+	// lookup of the target type between registrations, as a program does
+	// that registers each type's decoder right after its migration
+	probe := perm >= numPerms
 	if mp, ok := migCache[[2]int{v, perm}]; ok {
 		return mp
 	}
@@ -103,6 +107,10 @@ func buildVersion(v, perm int) *migProfile {
 		for _, i := range order {
 			from, to := chain[i][0], chain[i][1]
 			errors.RegisterTypeMigration(gen.MigPkgPath, gen.MigTypeName(from, form), gen.MigNew(to, form, "", errProbe))
+			if probe {
+				_ = errors.GetTypeKey(gen.MigNew(to, form, "", errProbe))
+				_ = errors.GetTypeKey(gen.MigNew(versionName[v], form, "", errProbe))
+			}
 		}
 		if versionName[v] < 0 {
 			continue
@@ -143,6 +151,9 @@ func buildVersion(v, perm int) *migProfile {
 	if len(chain) > 1 {
 		name += "[" + orderDesc + "]"
 	}
+	if probe {
+		name += "+probes"
+	}
 	mp.prof = &world.Profile{Name: name, Reg: errbase.VerifSnapshotRegistries(), Unknown: map[string]bool{}}
 	if v == v0 {
 		for form := 0; form < gen.NumForms; form++ {
@@ -157,11 +168,11 @@ func buildVersion(v, perm int) *migProfile {
 var errProbe = fmt.Errorf("probe")
 
 // EnumSize: sender(5) x intermediary(none + 6) x receiver(6) x form(3) x perm(6) x carrier(2)
-func (c17) EnumSize(tier Tier) int { return 5 * 7 * 6 * 3 * numPerms * 2 }
+func (c17) EnumSize(tier Tier) int { return 5 * 7 * 6 * 3 * (2 * numPerms) * 2 }
 
 func (c17) TapeFor(i int, tier Tier) []uint32 {
 	vals := []uint32{1}
-	for _, r := range []int{5, 7, 6, 3, numPerms, 2} {
+	for _, r := range []int{5, 7, 6, 3, 2 * numPerms, 2} {
 		vals = append(vals, uint32(i%r))
 		i /= r
 	}
@@ -184,7 +195,7 @@ func (p c17) Run(t *tape.Tape, tier Tier) *Result {
 		mid = t.Draw(7) - 1
 		receiver = t.Draw(6)
 		form = t.Draw(3)
-		perm = t.Draw(numPerms)
+		perm = t.Draw(2 * numPerms)
 		carrier = t.Draw(2)
 		if mid >= 0 {
 			mids = []int{mid}
@@ -196,7 +207,7 @@ func (p c17) Run(t *tape.Tape, tier Tier) *Result {
 		}
 		receiver = t.Draw(numVersions)
 		form = t.Draw(3)
-		perm = t.Draw(numPerms)
+		perm = t.Draw(2 * numPerms)
 		carrier = 2
 	}
 	// the node under test
